@@ -965,3 +965,49 @@ def run(ctx):
     _run_main3(ctx)
     extras3(ctx)
     ctx.flush()
+
+
+# ---- round 8: option values that are EQUAL to the documented ones without being the same object (np.bool_ from a comparison, 0 / 1) ----------------
+# (seed C19-r8-1: `if nodal is False` after a refactor; the pinned code tests truthiness)
+
+def _x4_option_forms(ctx, cur):
+    import eqsig
+    from eqsig import surface as sf
+    from _hxb_common import same
+    rng = ctx.rng
+    fns = [('calc_surface_energy', sf.calc_surface_energy), ('calc_cum_abs_surface_energy', sf.calc_cum_abs_surface_energy), ('get_time_shift_motions', sf.get_time_shift_motions)]
+    forms = [('np.bool_', lambda b: np.bool_(b)), ('int 0/1', lambda b: int(b)), ('np.array(..)[()] of a comparison', lambda b: (np.array([1.0]) > (0.0 if b else 2.0))[0])]
+    for it in range(12 if ctx.tier == 'quick' else 120):
+        n = gen.log_int(rng, 8, 120)
+        dt = rng.choice([0.01, 0.02, 0.125])
+        a = gen.any_record(rng, n, dt)[1]
+        tts = np.array([rng.uniform(0, 3 * dt) for _ in range(rng.randint(1, 3))])
+        base = {'nodal': rng.random() < 0.5, 'trim': rng.random() < 0.5, 'start': rng.random() < 0.5}
+        nm, f = fns[it % 3]
+        asig = eqsig.AccSignal(a, dt)
+        want = call_impl(f, asig, tts, **base)
+        for fname, conv in forms:
+            for opt in ('nodal', 'trim', 'start'):
+                kw = dict(base)
+                kw[opt] = conv(base[opt])
+                got = call_impl(f, eqsig.AccSignal(a, dt), tts, **kw)
+                ctx.hist('option forms/' + fname)
+                ok = got[0] == want[0] and (got[0] != 'ok' or same(got[1], want[1]))
+                ctx.oracle(f'C19 {nm}: the option {opt} given as an equal truth value that is not the Python singleton ({fname}) gives the result of True / False', ok,
+                           {'values': a, 'dt': dt, 'travel_times': tts, **{k: bool(v) for k, v in base.items()}, 'option': opt, 'form': fname},
+                           detail=None if ok else {'got': got[0], 'want': want[0]})
+    ctx.flush()
+
+
+def extras4(ctx):
+    from _hxb_common import guarded_sections
+    guarded_sections(ctx, 'C19', [('option forms', _x4_option_forms)])
+
+
+_run_main4 = run
+
+
+def run(ctx):
+    _run_main4(ctx)
+    extras4(ctx)
+    ctx.flush()
